@@ -46,6 +46,22 @@ Proof.
   intros H. now rewrite IH.
 Qed.
 
+Lemma valid_hint fs evs : run_frames fs = Valid evs ->
+  (match fs with f :: _ => (f_rows f = [] /\ f_meta f = []) \/ f_rows f <> [] | [] => True end) ->
+  hint (firstn 3 (write_delimited fs)) = true.
+Proof.
+  intros Hrun Hfirst. destruct (valid_has_options _ _ Hrun) as (o & rest & Hrows).
+  assert (Hlong : (3 <= length (write_delimited fs))%nat) by (apply write_delimited_long; rewrite Hrows; discriminate).
+  destruct fs as [|f fs']; [cbn in Hrows; discriminate|]. now apply write_delimited_detected.
+Qed.
+
+Lemma valid_sendable fs evs : run_frames fs = Valid evs -> Forall small fs -> Forall sendable fs.
+Proof.
+  intros Hrun Hsmall. pose proof (wf_of_valid _ _ Hrun) as Hwf.
+  clear -Hwf Hsmall. induction fs as [|f fs IH]; [constructor|].
+  inversion Hwf; inversion Hsmall; subst. constructor; [split; assumption|now apply IH].
+Qed.
+
 (* delimited *)
 Theorem valid_bytes_decode_delimited (fs : list frame) (evs : list event) (grouped : bool) :
   run_frames fs = Valid evs -> Forall small fs ->
@@ -155,4 +171,39 @@ Proof.
   destruct (valid_bytes_decode_single f evs grouped Hrun Hs) as (A & B & _).
   destruct (valid_bytes_decode_delimited [f] evs grouped Hrun (Forall_cons _ Hs (Forall_nil _)) (or_intror Hne)) as (C & D & _).
   cbv zeta. auto.
+Qed.
+
+(* ---- a cut exactly at a frame boundary: a shorter valid stream ---- *)
+From PJ.Proofs Require Import EncTerm EncStream.
+
+Lemma run_from_steps rows : forall i ss acc evs,
+  run_from i rows ss acc = Valid evs -> exists ss' e, steps rows ss = SOk (ss', e) /\ evs = acc ++ e.
+Proof.
+  induction rows as [|r rows IH]; intros i ss acc evs; cbn [run_from steps].
+  - intros H; inversion H; subst. exists ss, []. now rewrite app_nil_r.
+  - destruct (step r ss) as [[s1 e1]|]; [|discriminate]. intros H.
+    destruct (IH _ _ _ _ H) as (ss' & e & Hs & He). rewrite Hs. exists ss', (e1 ++ e). split; [reflexivity|]. now rewrite He, app_assoc.
+Qed.
+
+Lemma run_prefix_valid (a b : list row) (evs : list event) : a <> [] ->
+  run (a ++ b) = Valid evs -> exists evs1 later, run a = Valid evs1 /\ evs = evs1 ++ later.
+Proof.
+  intros Hne. unfold run. destruct a as [|r a]; [contradiction|]. cbn [app].
+  destruct r; try discriminate. destruct (start o) as [s0|]; [|discriminate]. intros H.
+  destruct (run_from_steps _ _ _ _ _ H) as (ss' & e & Hs & He). cbn [app] in He. subst evs.
+  rewrite steps_app in Hs. destruct (steps a s0) as [[s1 e1]|] eqn:E1; [|discriminate].
+  destruct (steps b s1) as [[s2 e2]|]; [|discriminate]. inversion Hs; subst.
+  exists e1, e2. split; [|reflexivity]. apply (steps_run_from _ 1 _ [] _ _ E1).
+Qed.
+
+Theorem cut_at_frame_boundary (fs1 fs2 : list frame) (evs : list event) (grouped : bool) :
+  run_frames (fs1 ++ fs2) = Valid evs -> Forall small fs1 -> flat_map f_rows fs1 <> [] ->
+  (match fs1 with g :: _ => (f_rows g = [] /\ f_meta g = []) \/ f_rows g <> [] | [] => True end) ->
+  let r := parse_stream Generic grouped false (write_delimited fs1) in
+  exists later, evs = flat_events r ++ later /\ pr_end r = PEnd /\ length (pr_frames r) = length fs1.
+Proof.
+  intros Hrun Hs Hne Hfirst r. subst r. unfold run_frames in Hrun. rewrite flat_map_app in Hrun.
+  destruct (run_prefix_valid _ _ _ Hne Hrun) as (evs1 & later & Hv & He).
+  destruct (valid_bytes_decode_delimited fs1 evs1 grouped Hv Hs Hfirst) as (A & B & C).
+  exists later. rewrite A. auto.
 Qed.
